@@ -31,3 +31,12 @@ mut("C17-8", "C17", "registry/remote/retry/policy.go", """		wait := time.Duratio
 		return wait
 """, """		return time.Duration(temp*(1-jitter)) + time.Duration(rand.Int64N(int64(2*jitter*temp)))
 """, ["ExponentialBackoff$1/pre:Int64N#0:n-positive"], "(canary) pre-fix ExponentialBackoff: rand.Int64N with non-positive bound")
+# pure renames of locals/parameters referenced by contracts (resolved through /verif/baseline_src)
+mut("C17-H2", "C17", "registry/remote/retry/client.go",
+    ["\tpolicy := t.policy()\n\tattempt := 0\n", "policy.Retry(attempt, resp, respErr)", "\t\tattempt++\n"],
+    ["\tpol := t.policy()\n\ttries := 0\n", "pol.Retry(tries, resp, respErr)", "\t\ttries++\n"],
+    [], "harmless: locals of RoundTrip renamed (contract names attempt, policy)", harmless=True)
+mut("C17-H3", "C17", "registry/remote/retry/client.go",
+    ["\tpolicy := t.policy()\n\tattempt := 0\n", "policy.Retry(attempt, resp, respErr)", "\t\tattempt++\n"],
+    ["\tpol := t.policy()\n\ttries := 1\n", "pol.Retry(tries, resp, respErr)", "\t\ttries++\n"],
+    ["RoundTrip/"], "rename plus a real change (attempt starts at 1): no rename map, contract must fail", harmless=False)
